@@ -249,6 +249,12 @@ theorem producers_seq (m : Msg) (cs : List Call3) (hv : m.valid = true) :
 theorem facts_checkrep_bounds :
     Generated.msgCheckRepInts = [0, 128, 0, 256, 1, 2, 0, 0, 2, -1, 65536, 4] := by decide
 
+/-- FillVariables re-validates every variable name it keeps or generates: the two name
+patterns are those of the model (`isValidVarName`, `isEllipsis`) -/
+theorem facts_name_patterns :
+    Generated.regexps.take 2 = [("ast.isValidVarName", "^[A-Za-z_]\\w*(\\[\\d+\\])*$"),
+                                 ("ast.isEllipsis", "^\\.{3}(\\[\\d+\\])?$")] := by decide
+
 /-! ### non-vacuity -/
 def sample : Msg := ⟨[65], 1, 13, 2, dirHE, .empty, -1, [0, 0, 0, 0]⟩
 example : sample.valid = true := by decide
